@@ -87,4 +87,19 @@ TEXTS["C13"] = dict(
                "enumerated completely (642 / 1420 cases) against real process services and receiver handlers; seeded runs add double faults on drawn id sets. Oracle: error to the client, no "
                "account in any instance's wallet store or cache, no panic in any handler call, and a subsequent fault-free generation under another name succeeds with a consistent key.",
     level_note=TRUST2 + " Faults during commit are outside this property (C13 covers prepare/execute/contribute).")
+TEXTS["C16"] = dict(
+    technique="deterministic cluster simulation: complete caller-identity x message x session-state table through the real receiver handlers (fake clock for expiry) + share-ownership monitor on the simulated transport",
+    level_text="The 180-case table {peer, fully-permitted ordinary client, empty, unknown, peer name in other case, peer name with suffix} x {prepare, execute, contribute, commit, abort} x "
+               "{none, prepared, executed, committed, aborted, expired} is enumerated completely on a 3-instance cluster of real services: a non-peer must get an error and no share, and "
+               "the legitimate run must continue from that state to a committed account on every participant (so a refused message created, deleted or altered nothing). A monitor "
+               "checks every contribution the transport carries (here and in seeded generations with drawn n, t and id sets): the share equals the originator's vector evaluated at the "
+               "recipient's id and at no other participant's id; a peer replaying a consistent contribution gets only its own share back.",
+    level_note=TRUST2 + " Peer identity is the authenticated name injected into the context as the TLS interceptor does (the interceptor itself is exercised by C19).")
+TEXTS["C17"] = dict(
+    technique="deterministic cluster simulation with fake clock: seeded prepare/execute/commit/abort/clock-advance sequences vs. a reference session lifecycle fed by observed transport facts",
+    level_text="Seeded search over event sequences (8-31 events, 1-3 account names, 3 real instances, generation timeout 1 ms .. 10 min on the synctest fake clock, clock advances landing 1 ns "
+               "before / exactly on / 1 ns after a session's expiry) issued by the harness as coordinator through the real receiver handlers. A reference lifecycle per (instance, account), "
+               "updated only from observed facts (which contribution exchanges the transport completed, which calls succeeded), is checked in exactly the directions the property states; "
+               "partial progress of a failed execute and the instant exactly at the timeout are left undecided.",
+    level_note=TRUST2)
 NOT_APPLICABLE = {}
